@@ -34,7 +34,7 @@ from asyncio import (
     run_coroutine_threadsafe as run_coro_ts,
 )
 from itertools import islice
-from threading import Lock
+from threading import Lock, RLock
 from functools import partial, wraps
 from concurrent.futures import ThreadPoolExecutor, Future as ConcurrentFuture
 from weakref import WeakKeyDictionary as WeakKeyDict, finalize
@@ -381,8 +381,11 @@ def threadsafe_async_cache(
 
     # 1 loop + event per input key currently caching
     events: Dict[Tuple[Any, ...], Tuple[aio.AbstractEventLoop, aio.Event]] = {}
-    # Ensure thread safety while creating events
-    event_making_lock = Lock()
+    # Ensure thread safety while creating events. Reentrant because the
+    # cleanup of an abandoned computation (its loop was closed with the
+    # task still pending) runs wherever the garbage collector happens to
+    # finalize it, possibly inside one of the locked sections below.
+    event_making_lock = RLock()
 
     @wraps(_func)
     async def _wrapper(*args: Any, **kwargs: Any) -> Any:
